@@ -165,6 +165,9 @@ int clock_gettime(clockid_t clk, struct timespec *ts) {
     if (!fn) fn = shim::real<decltype(fn)>("clock_gettime");
     vsched *s = vsched::current();
     if (!s || !s->virtual_clock || clk != CLOCK_REALTIME) return fn(clk, ts);
+    // reading the clock can be made a scheduling point of its own (a thread that reads the clock and then
+    // decides to wait can be overtaken between the two)
+    if (s->yield_on_clock && vsched::self()) vsched::mark("clock");
     ts->tv_sec = s->vnow_ns / 1000000000LL;
     ts->tv_nsec = s->vnow_ns % 1000000000LL;
     return 0;
